@@ -11,7 +11,7 @@ use serde_json::{Map as JSONMap, Value as JSONValue};
 use crate::{
     header::{LatLng, HEADER_BYTES},
     tile_manager::TileManager,
-    util::{compress, decompress, read_directories, tile_id, write_directories},
+    util::{compress, decompress, is_valid_zxy, read_directories, tile_id, write_directories},
     Compression, Header, TileType,
 };
 
@@ -179,6 +179,10 @@ impl<R: Read + Seek> PMTiles<R> {
     /// # Errors
     /// See [`get_tile_by_id`](Self::get_tile_by_id) for details on possible errors.
     pub fn get_tile(&mut self, x: u64, y: u64, z: u8) -> Result<Option<Vec<u8>>> {
+        if !is_valid_zxy(z, x, y) {
+            return Ok(None);
+        }
+
         self.get_tile_by_id(tile_id(z, x, y))
     }
 }
@@ -212,6 +216,10 @@ impl<R: AsyncRead + AsyncReadExt + Send + Unpin + AsyncSeekExt> PMTiles<R> {
     /// # Errors
     /// See [`get_tile_by_id_async`](Self::get_tile_by_id_async) for details on possible errors.
     pub async fn get_tile_async(&mut self, x: u64, y: u64, z: u8) -> Result<Option<Vec<u8>>> {
+        if !is_valid_zxy(z, x, y) {
+            return Ok(None);
+        }
+
         self.get_tile_by_id_async(tile_id(z, x, y)).await
     }
 }
